@@ -3,7 +3,9 @@
 //! the result of per-property direct oracles.
 mod labels;
 mod markers;
+mod proofs;
 mod rng;
+mod treeutil;
 
 use std::io::Write;
 
@@ -33,6 +35,21 @@ fn main() {
                 writeln!(out, "ORACLE-FAIL {}", f).unwrap();
             }
             writeln!(out, "SUMMARY cases={} oracle_failures={}", n, fails.len()).unwrap();
+        }
+        "trees" => {
+            let cx = proofs::run(arg(&args, 2, 1u64), arg(&args, 3, 0u32));
+            out.write_all(cx.out.as_bytes()).unwrap();
+            for f in &cx.fails {
+                writeln!(out, "ORACLE-FAIL {}", f).unwrap();
+            }
+            let mut st: Vec<_> = cx.stats.iter().collect();
+            st.sort();
+            write!(out, "STAT").unwrap();
+            for (k, v) in st {
+                write!(out, " {}={}", k, v).unwrap();
+            }
+            writeln!(out).unwrap();
+            writeln!(out, "SUMMARY cases={} oracle_failures={}", cx.cases, cx.fails.len()).unwrap();
         }
         _ => {
             eprintln!("usage: akd-verif-harness <labels> seed tier");
